@@ -150,7 +150,10 @@ func runProc(ctx context.Context, name, bin string, args []string, env []string,
 	start := time.Now()
 	cmd := exec.CommandContext(ctx, bin, args...)
 	cmd.Dir = dir
-	cmd.Env = append(goEnv(), env...)
+	// temporary files of the test binaries (native fuzzing creates some) stay inside the work directory, which is removed afterwards
+	tmp := filepath.Join(dir, "tmp")
+	_ = os.MkdirAll(tmp, 0o755)
+	cmd.Env = append(append(goEnv(), "TMPDIR="+tmp), env...)
 	var buf bytes.Buffer
 	cmd.Stdout = &buf
 	cmd.Stderr = &buf
